@@ -26,6 +26,22 @@ class CapturedPath:
       path, prev_edge = self._push_item_on_se_path(path, prev_edge, item)
     return path, prev_edge
 
+  def _begins_with_edge(self):
+    """Does the captured path begin with a segment, which is not an item of the
+    group, but is implied by an edge, which is its first item?"""
+    if not self.items:
+      return False
+    first = self.items[0]
+    if isinstance(first.line, gfapy.line.edge.GFA2):
+      return True
+    elif isinstance(first.line, gfapy.line.group.Ordered):
+      if first.orient == "+":
+        return first.line._begins_with_edge()
+      else:
+        return first.line._compute_captured_path()[1]
+    else:
+      return False
+
   def _push_item_on_se_path(self, path, prev_edge, item):
     if isinstance(item.line, str):
       raise gfapy.RuntimeError(
@@ -64,11 +80,13 @@ class CapturedPath:
         for subpath_item in subpath:
           path, prev_edge = self._push_item_on_se_path(path, prev_edge,
               subpath_item)
+        prev_edge = prev_edge_subpath
       else:
         for subpath_item in reversed(subpath):
           path, prev_edge = self._push_item_on_se_path(path, prev_edge,
               subpath_item.inverted())
-      prev_edge = prev_edge_subpath
+        # the reversed subpath ends with the element with which the subpath begins
+        prev_edge = item.line._begins_with_edge()
     elif isinstance(item.line, gfapy.line.unknown.Unknown):
       raise gfapy.RuntimeError(
         "Captured path cannot be computed; a reference has not been resolved\n"+
